@@ -306,6 +306,64 @@ func checkC06(r *core.Run, p *core.Program) {
 
 	checkSelfStackPairing(r, m, "C06.edge-end")
 	checkReferenceFiller(r, p, a, "C06.references")
+	r.Rule("C06.empty-containers", "the slice builder and the map builder start from a non-nil container: the value the slice builder's ppContainer points to is made with reflect.MakeSlice and the map builder's container with reflect.MakeMap / MakeMapWithSize (reflect.Zero or a nil value would make an empty list or map come back as null).")
+	checkEmptyContainers(r, p, "C06.empty-containers")
+	r.Rule("C06.siblings", "the handlers one builder type has for the events of one family (the BuildFrom* value events, the BuildNew* container-begin events) do the same things around the event-specific part: when at least four fifths of a family of eight or more handlers have, after replacing the delegated call of the same name with the handler's own parameters by a placeholder, exactly the same effect summary, each remaining handler that does not reject must have it too (a wrapper that forgets to send the pending record key for one kind of value, or registers the destination instead of the built object for one kind, deviates from its siblings).")
+	checkBuilderSiblings(r, m, "C06.siblings")
+}
+
+// checkBuilderSiblings cross-checks the handlers of each builder type within an event family.
+func checkBuilderSiblings(r *core.Run, m *builderMatrix, rule string) {
+	nGroups := 0
+	for _, t := range m.types {
+		for _, prefix := range []string{"BuildFrom", "BuildNew"} {
+			shapes := map[string][]string{}
+			n := 0
+			for _, meth := range m.methods {
+				if !strings.HasPrefix(meth, prefix) {
+					continue
+				}
+				s := m.cell[t][meth]
+				if s == "reject" || s == "?missing" {
+					continue // refusing the event is judged by the handler matrix rules
+				}
+				f := m.fn[t][meth]
+				if f == nil {
+					continue
+				}
+				// the delegated call of the same name with the handler's own parameters, in order
+				sig := f.Type().(*types.Signature)
+				var ps []string
+				for i := 0; i < sig.Params().Len(); i++ {
+					ps = append(ps, "$"+sig.Params().At(i).Name())
+				}
+				shape := strings.ReplaceAll(s, "iface."+meth+"("+strings.Join(ps, ",")+")", "iface.SAME(PARAMS)")
+				shape = strings.TrimSuffix(shape, "; return") // handlers with and without a result value
+				shapes[shape] = append(shapes[shape], meth)
+				n++
+			}
+			if n < 8 {
+				continue
+			}
+			major, majorN := "", 0
+			for sh, ms := range shapes {
+				if len(ms) > majorN || (len(ms) == majorN && sh < major) {
+					major, majorN = sh, len(ms)
+				}
+			}
+			if majorN*5 < n*4 || !strings.Contains(major, "iface.SAME(PARAMS)") {
+				continue // no common shape: the handlers of this type have event-specific logic
+			}
+			nGroups++
+			for sh, ms := range shapes {
+				for _, meth := range ms {
+					r.Check(rule, "builder."+t+"."+meth, posOfFunc(m, t, meth), sh == major,
+						fmt.Sprintf("%d of the %d %s* handlers of %s do `%s`; this one does `%s`", majorN, n, prefix, t, major, sh))
+				}
+			}
+		}
+	}
+	r.Floor(rule, "handler families with a common shape", nGroups, 2)
 }
 
 // checkArraySwitchCoverage: the switch over the array type in the given method has a non-rejecting case for every required type.
@@ -458,6 +516,22 @@ func pathConds(a *analysis, info *types.Info, f *fn, target ast.Node) (conds []a
 				case x.Else:
 					conds, pols = append(conds, x.Cond), append(pols, false)
 				}
+			case *ast.SwitchStmt:
+				// tagless switch: the chosen case's condition holds, those of the earlier cases do not
+				if x.Tag == nil && i+2 < len(stack) {
+					for _, c := range x.Body.List {
+						cc := c.(*ast.CaseClause)
+						if ast.Node(cc) == stack[i+2] {
+							if len(cc.List) == 1 {
+								conds, pols = append(conds, cc.List[0]), append(pols, true)
+							}
+							break
+						}
+						if len(cc.List) == 1 {
+							conds, pols = append(conds, cc.List[0]), append(pols, false)
+						}
+					}
+				}
 			case *ast.BlockStmt:
 				for _, st := range x.List {
 					if ast.Node(st) == stack[i+1] {
@@ -478,4 +552,89 @@ func pathConds(a *analysis, info *types.Info, f *fn, target ast.Node) (conds []a
 		return false
 	})
 	return conds, pols
+}
+
+func checkEmptyContainers(r *core.Run, p *core.Program, rule string) {
+	pkg := p.Pkg("builder")
+	info := pkg.TypesInfo
+	n := 0
+	isReflectCall := func(e ast.Expr, names ...string) bool {
+		call, ok := stripParens(e).(*ast.CallExpr)
+		if !ok {
+			return false
+		}
+		c := callee(info, call)
+		if c == nil || c.Pkg() == nil || c.Pkg().Path() != "reflect" {
+			return false
+		}
+		for _, nm := range names {
+			if c.Name() == nm {
+				return true
+			}
+		}
+		return false
+	}
+	for _, f := range funcsOf(pkg) {
+		ast.Inspect(f.Decl.Body, func(nd ast.Node) bool {
+			lit, ok := nd.(*ast.CompositeLit)
+			if !ok {
+				return true
+			}
+			nt := namedOf(info.TypeOf(lit))
+			if nt == nil {
+				return true
+			}
+			for _, el := range lit.Elts {
+				kv, ok := el.(*ast.KeyValueExpr)
+				if !ok {
+					continue
+				}
+				key, _ := kv.Key.(*ast.Ident)
+				if key == nil {
+					continue
+				}
+				switch {
+				case nt.Obj().Name() == "mapBuilder" && key.Name == "container":
+					n++
+					v := kv.Value
+					if id, isId := stripParens(v).(*ast.Ident); isId {
+						if init := singleInit(info, f, info.ObjectOf(id)); init != nil {
+							v = init
+						}
+					}
+					r.Check(rule, f.Name()+"|map container", kv.Pos(), isReflectCall(v, "MakeMap", "MakeMapWithSize"),
+						"the map builder's container is `"+exprStr(v)+"`, not a reflect.MakeMap value: an empty map is built as a nil map and marshals back as null")
+				case nt.Obj().Name() == "sliceBuilder" && key.Name == "ppContainer":
+					n++
+					ok := false
+					what := "no `*ppContainer = &container` with container made by reflect.MakeSlice was found"
+					pObj := objOf(info, kv.Value)
+					ast.Inspect(f.Decl.Body, func(k ast.Node) bool {
+						as, isAs := k.(*ast.AssignStmt)
+						if !isAs || len(as.Lhs) != 1 || len(as.Rhs) != 1 {
+							return true
+						}
+						st, isStar := stripParens(as.Lhs[0]).(*ast.StarExpr)
+						if !isStar || pObj == nil || objOf(info, st.X) != pObj {
+							return true
+						}
+						u, isAddr := stripParens(as.Rhs[0]).(*ast.UnaryExpr)
+						if !isAddr || u.Op != token.AND {
+							return true
+						}
+						init := singleInitOpt(info, f, objOf(info, u.X), true)
+						if init != nil && isReflectCall(init, "MakeSlice") {
+							ok = true
+						} else if init != nil {
+							what = "the slice the builder appends to starts as `" + exprStr(init) + "`, not a reflect.MakeSlice value"
+						}
+						return true
+					})
+					r.Check(rule, f.Name()+"|slice container", kv.Pos(), ok, what+": an empty list is built as a nil slice and marshals back as null")
+				}
+			}
+			return true
+		})
+	}
+	r.Floor(rule, "slice/map builder constructions", n, 2)
 }
